@@ -174,8 +174,9 @@ def run_harness(unit, variant, h, tier='quick', keep=False):
         if x:
             defs.append('-D' + x)
     # functions named by the harness must exist
+    spec_txt = open(os.path.join(ROOT, unit['spec'])).read()
     for f in ([h['enforce']] if h['enforce'] else []) + h['replace']:
-        if f not in meta['protos']:
+        if f not in meta['protos'] and not (f.startswith('__verif_') and re.search(r'\b%s\s*\(' % re.escape(f), spec_txt)):
             r.update(status='infra', reason='contract target %s not found in extracted unit (renamed/removed?)' % f)
             return r
     if h['enforce'] and not meta['functions'][h['enforce']]['body']:
@@ -188,7 +189,7 @@ def run_harness(unit, variant, h, tier='quick', keep=False):
     if rc != 0:
         r.update(status='infra', reason='goto-cc failed: ' + (se + so)[-3000:])
         return r
-    gi = ['goto-instrument', '--dfcc', h['name']]
+    gi = ['goto-instrument', '--no-malloc-may-fail', '--dfcc', h['name']]
     if h['enforce']:
         gi += ['--enforce-contract', h['enforce']]
     for g in h['replace']:
@@ -237,14 +238,19 @@ def run_harness(unit, variant, h, tier='quick', keep=False):
         o = {'name': p.get('property'), 'desc': p.get('description'), 'status': p.get('status'),
              'file': loc.get('file'), 'line': loc.get('line'), 'function': loc.get('function')}
         obs.append(o)
-        if p.get('status') != 'SUCCESS':
+        if p.get('status') == 'FAILURE':
             o['trace'] = p.get('trace')
             failed.append(o)
     r['obligations'] = obs
     r['failed'] = failed
     r['n_loop_inv'] = sum(1 for o in obs if 'loop_invariant' in (o['name'] or '') or 'loop invariant' in (o['desc'] or ''))
+    undecided = [o for o in obs if o['status'] not in ('SUCCESS', 'FAILURE')]
+    r['undecided'] = len(undecided)
     if failed:
         r['status'] = 'fail'
+    elif undecided:
+        r['status'] = 'infra'
+        r['reason'] = '%d obligations undecided (%s) without any refuted one' % (len(undecided), undecided[0]['status'])
     else:
         r['status'] = 'pass' if status == 'success' else 'infra'
         if r['status'] == 'infra':
